@@ -5,9 +5,43 @@ Model: KDVerif/Model/ModeWrapper.lean (constructor planner, `__getitem__`, index
 Loader results are symbolic tags `(loader name, sample index, call number)`.
 -/
 import KDVerif.Model.ModeWrapper
+import KDVerif.Lemmas.ModeWrapperPlan
 
 namespace KDVerif.C01
 open KDVerif.ModeWrapper
+
+/-! ### the constructor's planner (fused-group detection and index bookkeeping) -/
+
+/-- **delivered in mode order**: every planned loader writes only positions whose mode item it loads; the `j`-th
+    component of a joint (fused) loader goes to a position that holds the group's `j`-th item — for every mode
+    (any length, order, duplicates) and every fused declaration the constructor accepts -/
+theorem loaders_write_their_own_positions (fusedOps : List (List String)) (items : List String)
+    (hnd : ∀ f ∈ fusedOps, hasDup f = false) : ∀ e ∈ plan fusedOps items, EntryOk items e :=
+  plan_entries_ok fusedOps items hnd
+
+/-- **every mode position gets a value**: each position is written by some planned loader -/
+theorem every_position_loaded (fusedOps : List (List String)) (items : List String) :
+    ∀ p, p < items.length → ∃ e ∈ plan fusedOps items, covers e p :=
+  plan_covers' fusedOps items
+
+/-- the members of a jointly loaded group land on pairwise distinct positions … -/
+theorem joint_positions_distinct (fusedOps : List (List String)) (items : List String)
+    (hnd : ∀ f ∈ fusedOps, hasDup f = false) :
+    ∀ ops poss, Entry.fused ops poss ∈ plan fusedOps items → poss.Nodup :=
+  plan_fused_positions_distinct fusedOps items hnd
+
+/-- … and what the joint loader wrote there is final: no later loader overwrites a position of a joint group, so
+    all positions of the group carry the components of that one joint call -/
+theorem joint_load_is_final (fusedOps : List (List String)) (items : List String)
+    (hnd : ∀ f ∈ fusedOps, hasDup f = false) (pre : List Entry) (ops : List String) (poss : List Nat) (post : List Entry)
+    (h : plan fusedOps items = pre ++ Entry.fused ops poss :: post) :
+    ∀ e ∈ post, ∀ p ∈ poss, ¬ covers e p :=
+  plan_fused_final fusedOps items hnd pre ops poss post h
+
+/-- without jointly loaded items the loaders run once each, in mode order -/
+theorem unfused_plan_is_mode_order (items : List String) (p : Nat) :
+    (plan [] items)[p]? = items[p]?.map (fun it => Entry.single it p) :=
+  plan_nofused_getElem? items p
 
 /-! ### index forms -/
 
